@@ -42,6 +42,26 @@ for k in sorted(mut):
 n_s = len(seeded); n_m = len(mut)
 miss = [k for k, v in res.items() if not v.get('detected_by')]
 out.append('\n%d seeded variants and %d mutants in the last sweep (`tools/sweep.py all`); not reported by any check: %s.\n' % (n_s, n_m, miss or 'none'))
+# benign refactorings
+bp = os.path.join(VERIF, 'benign', 'RESULTS.json')
+if os.path.exists(bp):
+    br = json.load(open(bp))
+    hist = json.load(open(os.path.join(VERIF, 'benign', 'HISTORY.json'))) if os.path.exists(os.path.join(VERIF, 'benign', 'HISTORY.json')) else {}
+    out.append('\n### Behaviour-preserving refactorings (false-alarm measurement; every reported key is a false alarm)\n')
+    out.append('| refactoring | area / transformation | first run | now |\n|---|---|---|---|')
+    for k in sorted(br):
+        meta = os.path.join(VERIF, 'benign', k, 'meta.json')
+        what = ''
+        if os.path.exists(meta):
+            try:
+                mj = json.load(open(meta))
+                what = ' '.join((str(mj.get('area', '')) + ': ' + str(mj.get('summary', ''))).split())[:200]
+            except Exception:
+                pass
+        now = sorted({x.split('/', 1)[1].split('/')[0] for ks in br[k].values() for x in ks})
+        first = hist.get(k)
+        out.append('| `%s` | %s | %s | %s |' % (k, what.replace('|', '/'), first if first is not None else '', 'silent' if not now else '**alarm** ' + ' '.join(now)))
+    out.append('\n%d refactorings in the last run of `tools/benign_sweep.py`, %d of them with an alarm.\n' % (len(br), len([1 for v in br.values() if v])))
 out.append(open(os.path.join(VERIF, 'docs', 'DESIGN.risks.md')).read())
 open(os.path.join(VERIF, 'DESIGN.md'), 'w').write('\n'.join(out))
 print('DESIGN.md written: %d bytes' % os.path.getsize(os.path.join(VERIF, 'DESIGN.md')))
